@@ -4,11 +4,15 @@ import (
 	"context"
 	"encoding/json"
 	"fmt"
+	"github.com/99designs/gqlgen/graphql/handler"
+	"github.com/vektah/gqlparser/v2/gqlerror"
 	"math"
 	"sort"
 	"strconv"
 	"strings"
+	"sync"
 	"testing"
+	"vh/hsrv"
 
 	"github.com/vektah/gqlparser/v2/ast"
 	"pgregory.net/rapid"
@@ -28,6 +32,9 @@ type InputCase struct {
 	Field   string             `json:"field"`
 	Args    map[string]*rc.Val `json:"args"` // absent = omitted
 	Vars    []*rc.VarDef       `json:"vars,omitempty"`
+	// ViaPost: the operation travels through the POST transport of a long-lived handler (after a
+	// primer request), not through the executor API
+	ViaPost bool `json:"via_post,omitempty"`
 }
 
 func (c InputCase) render() (query string, varsJSON string) {
@@ -87,6 +94,47 @@ func convert(v any) any {
 		return out
 	}
 	return v
+}
+
+var postHandlers sync.Map // *proj.Server -> *handler.Server (long-lived: what one request leaves behind the next one would see)
+
+// doPost sends the operation through the POST transport of a long-lived handler, after a primer
+// request that carries values for every variable name the generator uses: a transport that let
+// anything of one request reach the next would hand those values to variables this request omits.
+func doPost(s *proj.Server, e *univ.Exec, query, varsJSON string) *proj.Response {
+	hv, ok := postHandlers.Load(s)
+	if !ok {
+		hv, _ = postHandlers.LoadOrStore(s, hsrv.New(s, hsrv.Config{Transports: []string{"post"}}))
+	}
+	h := hv.(*handler.Server)
+	s.U.SetExec(univ.NewExec(plan.New(1)))
+	primer := hsrv.Req{Transport: "post", HasQuery: true, Query: "query($v1: Int, $v2: Int, $v3: Int, $v4: Int, $v5: Int, $v6: Int) { plain }",
+		Variables: `{"v1":11,"v2":12,"v3":13,"v4":14,"v5":15,"v6":16}`}
+	_ = hsrv.Serve(h, primer.Build())
+	s.U.SetExec(e)
+	r := hsrv.Req{Transport: "post", HasQuery: true, Query: query}
+	if strings.TrimSpace(varsJSON) != "{}" && strings.TrimSpace(varsJSON) != "" {
+		r.Variables = varsJSON
+	}
+	res := hsrv.Serve(h, r.Build())
+	out := &proj.Response{Rejected: res.Status != 200}
+	var env struct {
+		Data   json.RawMessage `json:"data"`
+		Errors gqlerror.List   `json:"errors"`
+	}
+	if err := json.Unmarshal(res.Body, &env); err != nil {
+		out.Panic = fmt.Sprintf("answer %d %q is not JSON: %v", res.Status, res.Body, err)
+		return out
+	}
+	out.Data, out.Errors = env.Data, env.Errors
+	for _, ge := range env.Errors {
+		// the panic inside gqlparser's variable validation (known finding) reaches the client through
+		// the handler's recover; the direct path sees it as a panic with this stack
+		if strings.Contains(ge.Message, "reflect: call of reflect.Value.Type on zero Value") {
+			out.Panic, out.PanicStack = ge.Message, "validator.(*varValidator).validateVarType (as reported through the handler's recover)"
+		}
+	}
+	return out
 }
 
 func checkInput(c InputCase) *vfrun.Failure {
@@ -152,7 +200,12 @@ func checkInput(c InputCase) *vfrun.Failure {
 		}
 		e := univ.NewExec(plan.New(1))
 		e.RecordArgs = true
-		resp := s.Do(context.Background(), e, query, "", vars)
+		var resp *proj.Response
+		if c.ViaPost {
+			resp = doPost(s, e, query, varsJSON)
+		} else {
+			resp = s.Do(context.Background(), e, query, "", vars)
+		}
 		vfrun.Eval()
 		if resp.Panic != nil {
 			key := "coerce.panic-in-gqlgen"
@@ -252,6 +305,9 @@ func checkInput(c InputCase) *vfrun.Failure {
 			}
 		}
 		vfrun.Label("input:" + class.String())
+		if c.ViaPost {
+			vfrun.Label("input:via-post-transport")
+		}
 		nt := false
 		for name, on := range map[string]bool{"uses-default": co.UsedDefault, "omitted-vs-null": co.OmitVsNull, "list-coercion": co.ListCoerced, "enum-or-custom-scalar": co.EnumOrCustom, "rejected": class == rc.Invalid} {
 			if on {
@@ -603,6 +659,7 @@ func genInput(t *rapid.T) InputCase {
 		}
 	}
 	c.Vars = g.vars
+	c.ViaPost = rapid.IntRange(0, 2).Draw(t, "viapost") == 0
 	return c
 }
 
